@@ -62,6 +62,35 @@ def substBlock (env : Name → Option Lit) (bound : VSet) : List Stmt → List S
   | s :: ss => substStmt env bound s :: substBlock env bound ss
 end
 
+/-- `bool(value)` of a Python constant. -/
+def litTruth : Lit → Bool
+  | .int v => v != 0
+  | .flt _ mag => !(mag.toList.all (fun c => c = '0' || c = '.'))
+  | .bool b => b
+  | .ints vs => !vs.isEmpty
+
+mutual
+/-- `AstAnalyzer._compute_constant_if_conditions` + `_translate_if_stmt`: `if name:` where `name` is not local to the
+function (neither assigned in it nor — since 11e898c, formerly finding C01-D45 — one of its parameters) and is bound
+in the surroundings is a *static* condition: only the branch its value selects is translated, in place. -/
+def foldStmt (env : Name → Option Lit) (bound : VSet) : Stmt → List Stmt
+  | .ite c t e =>
+    match c with
+    | .var x =>
+      if bound.contains x then [.ite c (foldBlock env bound t) (foldBlock env bound e)]
+      else
+        match env x with
+        | some l => if litTruth l then foldBlock env bound t else foldBlock env bound e
+        | none => [.ite c (foldBlock env bound t) (foldBlock env bound e)]
+    | _ => [.ite c (foldBlock env bound t) (foldBlock env bound e)]
+  | .for_ i ok b body => [.for_ i ok b (foldBlock env bound body)]
+  | .while_ c body => [.while_ c (foldBlock env bound body)]
+  | s => [s]
+def foldBlock (env : Name → Option Lit) (bound : VSet) : List Stmt → List Stmt
+  | [] => []
+  | s :: ss => foldStmt env bound s ++ foldBlock env bound ss
+end
+
 /-- Names that are local to the function, as in Python: its parameters and every name assigned anywhere in its
 body (`Converter._function_locals`, c2aeb08: `_lookup` never consults the surroundings for them, not even on a path
 that has not assigned them yet). -/
@@ -69,8 +98,11 @@ def resolveBound (f : Func) : VSet :=
   vunion (vofList (f.params.map Param.name)) ((assignedBlock f.body).getD [])
 
 /-- The function as the converter sees it given the closure variables and module globals that hold Python
-constants: free names resolved closure-first, local names never. -/
+constants: static `if`s on free names folded, free names resolved closure-first, local names never. -/
 def resolveEnv (nonlocals globals : List (Name × Lit)) (f : Func) : Func :=
-  { f with body := substBlock (envLookup nonlocals globals) (resolveBound f) f.body }
+  let env := envLookup nonlocals globals
+  let bound := resolveBound f
+  let body' := substBlock env bound (foldBlock env bound f.body)
+  { f with body := body' }
 
 end OV.C01
